@@ -62,6 +62,8 @@ TREES = {
               F("r/[b]/x"), F("r/a.1z/x"), F("r/v/x"), F("r/vv/x"), F("r/v-2/sub/x"), F("r/d-1/x.txt"), F("r/V.2/X")],
     "sizes": [F("r/s0", 0), F("r/s1", 1), F("r/s2", 2), F("r/s100", 100), F("r/d/s2b", 2, 9), F("r/d/s1b", 1, 9)],
     "multi": [F("r/a/x"), F("r/a/b/x"), F("r/c/x"), F("q/x"), F("q/d/y"), S("r/toq", "../q"), S("q/tor", "../r/a")],
+    # two sibling directories whose names differ only by case; cwd-relative patterns are tried from inside one of them
+    "casecwd": [F("r/src/x"), F("r/src/d/x.txt"), F("R/src/x"), F("R/src/d/x.txt"), F("R/other/x")],
 }
 QUICK_TREES = ["nest", "ignore", "links", "names"]
 
@@ -112,8 +114,7 @@ class Sel:
     """Reference path selector."""
 
     def __init__(self, o, cwd):
-        flags = re.IGNORECASE if o.get("ignore_case") else 0
-        flags |= re.DOTALL
+        ic = bool(o.get("ignore_case"))
 
         def comp(p, anchor):
             if o.get("regex"):
@@ -122,9 +123,13 @@ class Sel:
             else:
                 rx = glob_to_re(p)
                 is_abs = p.startswith("/") or p.startswith("**")
+            if ic:
+                rx = "(?i:" + rx + ")"
             if anchor and not is_abs:
+                # the pattern is case-insensitive, the working directory it is anchored at is a real
+                # directory and is not: a sibling directory that differs only by case is a different place
                 rx = re.escape(cwd.rstrip("/") + "/") + rx
-            return re.compile(rx, flags)
+            return re.compile(rx, re.DOTALL)
         self.names = [comp(p, False) for p in o.get("name", [])]
         self.paths = [comp(p, True) for p in o.get("path", [])]
         self.excl = [comp(p, True) for p in o.get("exclude", [])]
@@ -403,6 +408,13 @@ def cases(tier, seed):
                                 out.append({"tree": tname, "o": dict(po, depth=depth, hidden=hidden, no_ignore=no_ignore,
                                                                       follow=follow, report_links=rl),
                                             "cwd": cwd, "roots": ["r"]})
+    # cwd-relative patterns with --ignore-case, scanned roots both inside the cwd and in a sibling that differs only by case
+    for lab, po in (("path", {"path": ["src/**"]}), ("path", {"path": ["SRC/**/X"]}), ("exclude", {"exclude": ["src/**"]}),
+                    ("exclude", {"exclude": ["Src/d/**"]}), ("name", {"name": ["X"]}), ("regex", {"path": ["src/.*"], "regex": True})):
+        for ic in (False, True):
+            for cwd in ("r", "R"):
+                for follow in (False, True):
+                    out.append({"tree": "casecwd", "o": dict(po, ignore_case=ic, follow=follow), "cwd": cwd, "roots": ["r", "R"]})
     # --one-fs: a second file system reached through a link, and a nested mount point
     for follow in (False, True):
         for one_fs in (False, True):
